@@ -77,7 +77,12 @@ def gen_cases(seed, n):
             else:
                 p = {"t": "join", "ps": [{"t": "sub", "q": t1}, {"t": "sub", "q": t2}]}
             q = {"distinct": False, "star": True, "proj": [], "from": [], "fromnamed": [], "group": [], "order": [], "limit": -1, "p": p}
+        if i % 15 == 4:
+            # twins: two union branches that differ in one detail deep inside (plan memo keys, caches by sub-plan shape)
+            q = G.twin_query(rng, quads, G.TWIN_KINDS[(i // 15) % len(G.TWIN_KINDS)])
         text = G.pr_select(q)
+        if i % 10 == 9:
+            text = G.dollar(text)       # $x is the same variable as ?x
         # the dataset is the result of a history: some quads (sharing terms with the kept ones) are inserted and deleted again
         junk = []
         for _ in range(rng.choice([0, 2, 3, 4])):
